@@ -139,6 +139,22 @@ fn step(line: &str, st: &mut Streams) -> Option<i32> {
                 let _ = std::fs::write(&outfile, body);
             }
         }
+        "outenv" => {
+            // print the environment this executable was given (sorted; the harness's own control variables
+            // left out) to stdout: whatever a run hands to its children shows up in their stored log
+            let mut vars: Vec<(String, String)> = std::env::vars()
+                .filter(|(k, _)| !(k.starts_with("VHELPER_") || k.starts_with("MONORAIL_VERIF_") || k.starts_with("MRV_") || k == "LD_PRELOAD"))
+                .collect();
+            vars.sort();
+            let mut text = String::from("environment:\n");
+            for (k, v) in vars {
+                text.push_str(&format!("  {}={}\n", k, v));
+            }
+            if let Some(o) = st.out.as_mut() {
+                let _ = o.write_all(text.as_bytes());
+                let _ = o.flush();
+            }
+        }
         "chmod" => {
             // "<octal mode> <hex path>": change the permission bits of a file (a bootstrap step that
             // makes a later command executable, or a clean-up step that takes the bit away)
